@@ -601,6 +601,16 @@ def announce_ipv4(
                 await reactor.processes.answer_error(service)
                 return
 
+            # what 'announce route' refuses (no next hop, a labelled route without a label, a VPN route without
+            # an RD) is refused here as well: the route went into the Adj-RIB-Out as it was, the command was
+            # answered done, and the encoder raised ValueError when the route was to be sent
+            for route in routes:
+                error = validate_announce(route)
+                if error:
+                    self.log_failure(f'invalid route: {error}')
+                    await reactor.processes.answer_error(service, error)
+                    return
+
             # Register flush callbacks for connected peers (if sync mode)
             flush_events = register_flush_callbacks(peers, reactor, sync_mode)
 
@@ -682,6 +692,16 @@ def announce_ipv6(
                 self.log_failure(f'command could not parse ipv6 in : {cmd}')
                 await reactor.processes.answer_error(service)
                 return
+
+            # what 'announce route' refuses (no next hop, a labelled route without a label, a VPN route without
+            # an RD) is refused here as well: the route went into the Adj-RIB-Out as it was, the command was
+            # answered done, and the encoder raised ValueError when the route was to be sent
+            for route in routes:
+                error = validate_announce(route)
+                if error:
+                    self.log_failure(f'invalid route: {error}')
+                    await reactor.processes.answer_error(service, error)
+                    return
 
             # Register flush callbacks for connected peers (if sync mode)
             flush_events = register_flush_callbacks(peers, reactor, sync_mode)
